@@ -310,6 +310,56 @@ fn place_case(k: u32, refk: u64, ts: u64, free: bool) -> Value {
     first.unwrap_or(json!({"no_offsets": true}))
 }
 
+/// Text entry points: the k-bit times t1, t2 (any era) are lifted to real
+/// times era * 2^32 + (t mod 2^k) * 2^(32-k) + c, rendered as real dates and
+/// as integers, read through FromStr, Timestamp::scan and the zone-file
+/// reader (RRSIG expiration = t1, inception = t2); the field values are
+/// unlifted and the two scanned timestamps are compared.  Different offsets
+/// for the two times are used when the k-bit distance is neither 0 nor half
+/// a cycle (the comparison is then unaffected, see cmp_case).
+fn text_case(k: u32, t1: u64, t2: u64) -> Value {
+    let sh = 32 - k;
+    let s: u64 = 1u64 << sh;
+    let m: u64 = 1u64 << k;
+    let lift = |t: u64, c: u64| ((t >> k) << 32) + ((t & (m - 1)) << sh) + c;
+    let mut rng = Rng::new(seed() ^ (t1 << 24) ^ (t2 << 8) ^ (k as u64) << 44);
+    let r = rng.below(s);
+    let mut offs: Vec<(u64, u64)> = vec![(0, 0), (s - 1, s - 1), (r, r)];
+    let dk = (t2 + m * 4 - t1) % m;
+    if dk != 0 && dk != m / 2 {
+        offs.extend_from_slice(&[(0, s - 1), (s - 1, 0), (rng.below(s), rng.below(s))]);
+    }
+    offs.sort();
+    offs.dedup();
+    let mut first: Option<Value> = None;
+    for (c1, c2) in offs {
+        let (a, b) = (lift(t1, c1), lift(t2, c2));
+        let obs = match text_entry_points(a, b) {
+            Err(e) => json!({"entry_points": e, "t1": a, "t2": b}),
+            Ok((v1, v2)) => {
+                let un = |v: u32, c: u64| {
+                    let base = (v as u64).wrapping_sub(c);
+                    if (v as u64) >= c && base % s == 0 { json!(base >> sh) } else { json!({"badlift": v}) }
+                };
+                json!({
+                    "v1": un(v1, c1), "v2": un(v2, c2),
+                    "cmp": lib_ts_cmp(v1, v2),
+                    "written": match text_written_ok(v1, v2) { Ok(()) => json!(true), Err(e) => json!(e) },
+                })
+            }
+        };
+        match &first {
+            None => first = Some(obs),
+            Some(f) if *f != obs => {
+                return json!({"offsets_disagree": {"c1": c1, "c2": c2, "t1": a, "t2": b,
+                                                   "first": f, "this": obs}});
+            }
+            _ => {}
+        }
+    }
+    first.unwrap_or(json!({"no_offsets": true}))
+}
+
 fn main() {
     run_cases(|input| {
         let k = input["k"].as_u64().unwrap_or(0) as u32;
@@ -320,6 +370,11 @@ fn main() {
         match input["kind"].as_str() {
             Some("cmp") => cmp_case(k, a, input["b"].as_u64().unwrap_or(0)),
             Some("add") => add_case(k, a, input["n"].as_u64().unwrap_or(0)),
+            Some("text") => text_case(
+                k,
+                input["t1"].as_u64().unwrap_or(0),
+                input["t2"].as_u64().unwrap_or(0),
+            ),
             Some("place") => place_case(
                 k,
                 input["ref"].as_u64().unwrap_or(0),
